@@ -9,7 +9,9 @@ git -C /repo worktree add --detach "$S/repo" HEAD >/dev/null 2>&1 || { echo "can
 cleanup() { git -C /repo worktree remove --force "$S/repo" >/dev/null 2>&1; rm -rf "$S"; }
 trap cleanup EXIT
 git -C "$S/repo" apply "$PATCH" || { echo "patch does not apply"; exit 2; }
-cd /verif
+# a private copy of the framework, so that the evaluation is not disturbed by edits made meanwhile
+rsync -a --exclude bin --exclude evidence --exclude .git --exclude seeded /verif/ "$S/verif/"
+cd "$S/verif"
 for p in "$@"; do
   out=$(VERIF_REPO="$S/repo" VERIF_OUT="$S/out" VERIF_SCRATCH="$S" ./check $p --tier $TIER 2>&1); rc=$?
   echo "[$p rc=$rc] $(echo "$out" | grep -c '^VIOLATION') violation lines; $(echo "$out" | grep -E '^  why' | sort | uniq -c | sort -rn | head -3 | tr '\n' ';' | cut -c1-700)"
